@@ -64,7 +64,7 @@ def check(run):
     units = []
     spec_by_unit = {}
     for s in specs:
-        u = shards.Unit("u_" + s.name.lower(), c01.glue(s), meta={"enum_src": s.render()}, sig=s.signature(), head=strgen.CAPTURE_HEAD)
+        u = shards.Unit("u_" + s.name.lower(), c01.glue(s), meta={"enum_src": s.render(), "bare_src": s.render_bare()}, sig=s.signature(), head=strgen.CAPTURE_HEAD)
         units.append(u)
         spec_by_unit[u.name] = s
     run.rule = RULE
